@@ -175,10 +175,20 @@ def gen_shas(rng, nsets, nalt):
     return cs
 
 
+def extra_hash_fields(rng, ss):
+    """PanSN headers with MORE than three '#' fields (sample#hap#contig#more...): the sample is still the first two
+    fields and the contig name the whole header (a seeded change that matched exactly three fields went unnoticed
+    before these were generated)"""
+    return [(s, [((nm + b"#" + rng.choice([b"pat", b"mat", b"h2#x", b"1"])) if rng.random() < 0.6 else nm, q) for nm, q in c])
+            for s, c in ss]
+
+
 def gen_pairs(rng, n):
     cs = []
     for i in range(n):
         ss = sample_set(rng)
+        if i % 2 == 0:
+            ss = extra_hash_fields(rng, ss)
         p = params(rng)
         w, e, m = rng.choice(WIDTHS), rng.choice(EOLS)[1], rng.choice(MASKS)
         pansn = [(s + b"#1#" + nm, q) for s, c in ss for nm, q in c]
@@ -223,7 +233,7 @@ def gen_cases(rng, tier):
         cs.append("rd " + hx(rng.choice([b"t.fa.gz", b"t.gz", b"a.b.fasta.gz"])) + " " + hx(gz_variant(rng, plain, kind)) + " " + hx(plain))
         cs.append("rd " + hx(b"t.fa") + " " + hx(plain) + " " + hx(plain))
     for _ in range(40 if quick else 1500):        # PanSN concatenation vs per-sample files, library level
-        ss = sample_set(rng)
+        ss = extra_hash_fields(rng, sample_set(rng))
         per = [(b"f%d.fa" % j, render([(s + b"#1#" + nm, q) for nm, q in c], rng.choice(WIDTHS), rng.choice(EOLS)[1], rng.choice(MASKS))) for j, (s, c) in enumerate(ss)]
         cs.append("stream " + " ".join(ftok(n, t) for n, t in per))
         cs.append("stream " + ftok(b"all.fa", b"".join(t for _, t in per)))
